@@ -2,7 +2,10 @@ package sim
 
 import (
 	"fmt"
+	resourceapi "k8s.io/api/resource/v1"
 	"sort"
+	"strconv"
+	"strings"
 )
 
 // Finding is one oracle verdict against one cycle of a history.
@@ -271,4 +274,110 @@ func DescribeOver(snap *Snapshot) string {
 		}
 	}
 	return s
+}
+
+// CheckDevices is the DRA part of C01: a device of a node's ResourceSlice is held by at most one claim, devices
+// held by pods that occupy the node (running, terminating, bound, being bound - by the claim status in the API or
+// by the allocation of a live BindRequest) are never handed to a bind, and a bind gets exactly the devices its
+// claims ask for, on the node it is bound to, out of the node's slice.
+func CheckDevices(rec *CycleRecord) ([]Finding, int) {
+	var out []Finding
+	if len(rec.Before.Claims) == 0 {
+		return nil, 0
+	}
+	held := map[string]string{} // driver/pool/device -> holder
+	hold := func(dev, who string) {
+		if prev, taken := held[dev]; taken && prev != who {
+			// inconsistent start state: not the scheduler's doing in this cycle
+			return
+		}
+		held[dev] = who
+	}
+	claimOf := func(pod *PodView, podClaim string) *resourceapi.ResourceClaim {
+		for _, pc := range pod.Raw.Spec.ResourceClaims {
+			if pc.Name == podClaim && pc.ResourceClaimName != nil {
+				return rec.Before.Claims[*pc.ResourceClaimName]
+			}
+		}
+		return nil
+	}
+	for _, rc := range rec.Before.Claims {
+		if rc.Status.Allocation == nil {
+			continue
+		}
+		for _, r := range rc.Status.Allocation.Devices.Results {
+			hold(r.Driver+"/"+r.Pool+"/"+r.Device, "claim "+rc.Name)
+		}
+	}
+	for _, br := range rec.Before.BRs {
+		pv := rec.Before.ByName[br.Spec.PodName]
+		if pv == nil || !pv.Binding {
+			continue
+		}
+		for _, ca := range br.Spec.ResourceClaimAllocations {
+			if ca.Allocation == nil {
+				continue
+			}
+			name := "claim of " + br.Spec.PodName
+			if rc := claimOf(pv, ca.Name); rc != nil {
+				name = "claim " + rc.Name
+			}
+			for _, r := range ca.Allocation.Devices.Results {
+				hold(r.Driver+"/"+r.Pool+"/"+r.Device, name)
+			}
+		}
+	}
+	sliceSize := rec.Before.Slices // driver/pool -> devices
+	bindsWithClaims := 0
+	for i, c := range rec.Calls {
+		if c.Kind != "bind" || c.Err != "" {
+			continue
+		}
+		pv := rec.Before.ByName[c.Pod]
+		if pv == nil || len(pv.Raw.Spec.ResourceClaims) == 0 {
+			continue
+		}
+		bindsWithClaims++
+		got := map[string]int{}
+		for _, cd := range c.Claims {
+			eq := strings.Index(cd, "=")
+			if eq < 0 {
+				continue
+			}
+			podClaim, dev := cd[:eq], cd[eq+1:]
+			if dev == "<unallocated>" {
+				out = append(out, Finding{"c01-bound-with-unallocated-claim", fmt.Sprintf("call %d binds %s while its claim %s has no devices", i, c.Pod, podClaim), rec.Index})
+				continue
+			}
+			got[podClaim]++
+			parts := strings.Split(dev, "/")
+			if len(parts) == 3 {
+				if parts[1] != c.Node {
+					out = append(out, Finding{"c01-device-of-another-node", fmt.Sprintf("call %d binds %s to node %s with device %s of node %s", i, c.Pod, c.Node, dev, parts[1]), rec.Index})
+				}
+				idx, err := strconv.Atoi(parts[2])
+				if size, known := sliceSize[parts[0]+"/"+parts[1]]; !known || err != nil || idx < 0 || idx >= size {
+					out = append(out, Finding{"c01-device-not-in-slice", fmt.Sprintf("call %d binds %s with device %s which the node's slice does not hold", i, c.Pod, dev), rec.Index})
+				}
+			}
+			me := "claim of " + c.Pod
+			if rc := claimOf(pv, podClaim); rc != nil {
+				me = "claim " + rc.Name
+			}
+			if who, taken := held[dev]; taken && who != me {
+				out = append(out, Finding{"c01-device-handed-out-twice", fmt.Sprintf("call %d (%s) hands device %s to %s although it is held by %s", i, c, dev, me, who), rec.Index})
+			}
+			held[dev] = me
+		}
+		for _, pc := range pv.Raw.Spec.ResourceClaims {
+			rc := claimOf(pv, pc.Name)
+			if rc == nil || len(rc.Spec.Devices.Requests) == 0 || rc.Spec.Devices.Requests[0].Exactly == nil {
+				continue
+			}
+			if want := int(rc.Spec.Devices.Requests[0].Exactly.Count); got[pc.Name] != want {
+				out = append(out, Finding{"c01-claim-device-count", fmt.Sprintf("call %d binds %s: claim %s asks for %d device(s), the bind carries %d (%v)", i, c.Pod, pc.Name, want, got[pc.Name], c.Claims), rec.Index})
+			}
+		}
+	}
+	return out, bindsWithClaims
 }
